@@ -21,11 +21,16 @@ def run(ctx):
     worlds = []
     for i in range(n):
         allow = ('many',) if g.r.random() < 0.15 else (('big',) if g.r.random() < 0.08 else ())
+        if ctx.tier != 'quick' and 'big' in allow and g.r.random() < 0.2:
+            allow += ('huge',)
+        if g.r.random() < 0.15:
+            allow += ('ends',)
         spec = cw.make_spec(g, allow)
         worlds.append(cw.render('c10-%d' % i, spec, ORACLES))
     for k, (mode, srt) in enumerate([((False, ''), '-'), ((False, 'clean'), '0'), ((False, ''), '1')]):
         worlds.append(cw.render('c10-big-%d' % k, cw.big_clean_spec(g, mode, srt), ORACLES))
     worlds += [cw.render('c10-tie-%d' % k, sp, ORACLES) for k, sp in enumerate(cw.tie_specs())]
     worlds += cw.junk_worlds('c10')
+    worlds += cw.extra_worlds('c10', g, ctx.tier, ORACLES)
     run_suite(ctx, 'clean.C10', worlds, known=known, chunk=200)
     findings.report(ctx, 'C10')
